@@ -28,19 +28,19 @@ def run(tier, seed):
     vlib.build_harness  # (built by ./check)
 
     # directed reproduction of each deviation on the real VM, validated by TLC
-    d = sp.run_directed(["exit_race", "late_register"], work)
-    for name in ("exit_race", "late_register"):
+    d = sp.run_directed(["exit_race", "late_register", "slow_during_set"], work)
+    for name in ("exit_race", "late_register", "slow_during_set"):
         end, val, path = d[name]
         r.cov["evaluations"] += 1
         sample = {"scenario": "directed-" + name, "end": end, "validation": val}
         r.cov["samples"].append(sample)
         tags = {t for t, _ in val["flags"]}
         if tags and all(sp.SIGNATURES.get(t) == name for t in tags):
-            if KF[name] in known:
+            if name in KF and KF[name] in known:
                 r.known[KF[name]] = next(f["what"] for f in r.findings if f["key"] == KF[name])
             else:
                 r.violation(f"{name} reproduced on the real VM: {sorted(tags)}", {"id": "directed-" + name, "trace": path, **sample})
-        elif not val["accepted"]:
+        elif not val["accepted"] or tags:
             r.violation(f"directed trace {name}: {val}", {"id": "directed-" + name, "trace": path, **sample})
         else:
             r.cov["traces_validated_against_impl"] += 1
